@@ -352,7 +352,7 @@ fn kinds(rate: f64, pl: f64, pr: f64) -> Vec<(&'static str, BuiltinWaveform<Conc
 }
 
 const RATES: &[f64] = &[1.0, 4.0, 1e9];
-const PADS: &[(f64, f64)] = &[(0.0, 0.0), (0.3, 1.0), (1.0, 0.0), (2.0, 0.3)];
+const PADS: &[(f64, f64)] = &[(0.0, 0.0), (0.3, 1.0), (1.0, 0.0), (2.0, 0.3), (0.375, 0.375), (0.3, 0.6), (1.5, 0.5), (0.75, 2.25)];
 
 fn c32_check(ri: usize, k: u32, pi: usize, wi: usize, thorough: bool) -> (bool, Vec<(String, String)>) {
     let rate = RATES[ri];
@@ -449,7 +449,7 @@ pub static C32: PropDef = PropDef {
     id: "C32",
     level: "exploration",
     engine: "sweep",
-    rule: "finite lattice: 9 built-in waveform instances (flat, gaussian, drag_gaussian, erf_square, hermite_gaussian, raised_cosine with rolloff 0 / 0.5 / 1, boxcar_kernel) x sample rate {1, 4, 1e9} x duration k/rate for k = 0..6 (thorough 0..12) x pads {0, 0.3, 1, 2}/rate (padded kinds) x scale {0, 0.5, -2, 1} x phase {0, 0.25, -0.125} (thorough 5 x 5), concrete and partial APIs with each of scale / phase known or unknown: sample count, linearity in scale, phase rotation, zero scale, placeholder length, partial == concrete once known. non-trivial = case that samples successfully",
+    rule: "finite lattice: 9 built-in waveform instances (flat, gaussian, drag_gaussian, erf_square, hermite_gaussian, raised_cosine with rolloff 0 / 0.5 / 1, boxcar_kernel) x sample rate {1, 4, 1e9} x duration k/rate for k = 0..6 (thorough 0..12) x 8 (pad_left, pad_right) pairs in units of 1/rate incl. whole, one-sided fractional and both-sided fractional paddings (padded kinds) x scale {0, 0.5, -2, 1} x phase {0, 0.25, -0.125} (thorough 5 x 5), concrete and partial APIs with each of scale / phase known or unknown: sample count, linearity in scale, phase rotation, zero scale, placeholder length, partial == concrete once known. non-trivial = case that samples successfully",
     assumptions: &["metamorphic oracle (no reference envelope); durations exactly aligned with the sample rate; a lattice, not all reals"],
     run: |ctx| {
         let thorough = ctx.tier == Tier::Thorough;
